@@ -584,6 +584,7 @@ fn dfs(cfg: Config, alpha: &[Op], hist: &mut Vec<Op>, depth: usize, acc: &mut Ac
 }
 
 pub fn explore(ctx: &Ctx, rep: &mut Report, found: &mut Findings) {
+    let t0 = std::time::Instant::now();
     let depth: usize = ctx.tier.pick(7, 9);
     let sizes: Vec<usize> = ctx.tier.pick(vec![1, 2], vec![1, 2, 3]);
     let alpha = alphabet();
@@ -662,6 +663,7 @@ pub fn explore(ctx: &Ctx, rep: &mut Report, found: &mut Findings) {
             "histories_agreeing_with_reference": total.clean,
             "distinct_end_states": total.states.len(),
             "resources_served_without_reset": total.served_dirty,
+            "wall_s": (t0.elapsed().as_secs_f64() * 100.0).round() / 100.0,
         }),
     );
     for s in total.samples {
